@@ -653,7 +653,7 @@ fn compile_depth(
             callable.compile(state)
         }
         Expr::ReferenceToConstructor(class_type) => {
-            let id = class_type.name();
+            let id = class_type.bytecode_name();
             Ok(vec![instruction!(load_self_export id)])
         }
         Expr::Index { lhs_raw, index } => {
